@@ -30,7 +30,7 @@ ENTRY = {
                 "invariance runs of generated SQL: memory vs Parquet layouts x planner-path variants.",
         "design_ref": "DESIGN.md §6 C04",
         "level_note": "Trusted: Lean kernel; axioms propext/Classical.choice/Quot.sound; the hand-written path models (validated by the runs only); sqlgen + "
-                      "Spec.sameAnswer; the parquet/arrow crates. Known finding C04-F1 (dense aggregation refuses NULL group keys) is listed with a proposed fix.",
+                      "Spec.sameAnswer; the parquet/arrow crates. Finding C04-F1 (dense aggregation refused NULL group keys, A.5) was repaired in /repo (4efd9ed); its witness is replayed first on every run.",
         "technique": "Lean 4 proof (induction on the plan; bag algebra) + metamorphic configuration-invariance runs on the Rust engine",
     },
 }
